@@ -493,7 +493,9 @@ package store
 //@   assume [clean-0] after "br.Close()"#3: (ret == nil) <==> gcClean(d#2.Digest, 0)
 //@   -- loop 1 puts every such entry on the work list; the mark loop keeps it settled
 //@   loop 1,2,3,4: invariant [index-apart]{C05} arr(index.Manifests) != arr(manifests)
-//@   loop 1: invariant [roots-queued]{C05} uses(call.Descriptor.Copy@*, 1:index-apart, assume.recent-is-stable-1) forall k: int :: 0 <= k && k <= rangeindex && k < len(index.Manifests) && (gcRoot(index.Manifests[k], *conf.Storage.GC.Untagged) || gcRecentRoot(index.Manifests[k], conf.Storage.GC.GracePeriod)) ==>
+//@   loop 1: invariant [roots-queued]{C05} uses(call.Descriptor.Copy@*, 1:index-apart) forall k: int :: 0 <= k && k <= rangeindex && k < len(index.Manifests) && gcRoot(index.Manifests[k], *conf.Storage.GC.Untagged) ==>
+//@             queued(manifests, index.Manifests[k].Digest, mtKind(index.Manifests[k].MediaType))
+//@   loop 1: invariant [recent-roots-queued]{C05} uses(call.Descriptor.Copy@*, 1:index-apart, assume.recent-is-stable-1) forall k: int :: 0 <= k && k <= rangeindex && k < len(index.Manifests) && gcRecentRoot(index.Manifests[k], conf.Storage.GC.GracePeriod) ==>
 //@             queued(manifests, index.Manifests[k].Digest, mtKind(index.Manifests[k].MediaType))
 //@   loop 1: invariant [responses-tracked]{C05} uses(call.Descriptor.Copy@*, 1:index-apart, 1:index-wf, assume.has-blob-is-stable) subjects != nil && forall k: int :: 0 <= k && k <= rangeindex && k < len(index.Manifests) && types.subjOf(index.Manifests[k]) != "" ==>
 //@             tracked(subjects, manifests, index.Manifests[k])
@@ -501,7 +503,7 @@ package store
 //@             settled(walked, manifests, index.Manifests[k].Digest, mtKind(index.Manifests[k].MediaType)) ||
 //@             ((subjDig(index.Manifests[k]) in subjects) && subjects[subjDig(index.Manifests[k])].Digest == index.Manifests[k].Digest && mtKind(subjects[subjDig(index.Manifests[k])].MediaType) == mtKind(index.Manifests[k].MediaType)) ||
 //@             subjDig(index.Manifests[k]) == "" || !gcHasBlob(subjDig(index.Manifests[k]))
-//@   loop 2,3,4: invariant [roots-settled]{C05} uses(assume.*, call.MediaTypeIndex@*, call.MediaTypeImage@*, call.Descriptor.Copy@*, call.Repo.blobGet@*, 2:maps, 3:maps, 4:maps, 2:roots-settled, 3:roots-settled, 4:roots-settled, assume.recent-is-stable-1, 1:roots-queued, 1:index-apart, 2:index-apart, 3:index-apart, 4:index-apart) forall k: int :: 0 <= k && k < len(index.Manifests) && (gcRoot(index.Manifests[k], *conf.Storage.GC.Untagged) || gcRecentRoot(index.Manifests[k], conf.Storage.GC.GracePeriod)) ==>
+//@   loop 2,3,4: invariant [roots-settled]{C05} uses(assume.*, call.MediaTypeIndex@*, call.MediaTypeImage@*, call.Descriptor.Copy@*, call.Repo.blobGet@*, 2:maps, 3:maps, 4:maps, 2:roots-settled, 3:roots-settled, 4:roots-settled, assume.recent-is-stable-1, 1:roots-queued, 1:recent-roots-queued, 1:index-apart, 2:index-apart, 3:index-apart, 4:index-apart) forall k: int :: 0 <= k && k < len(index.Manifests) && (gcRoot(index.Manifests[k], *conf.Storage.GC.Untagged) || gcRecentRoot(index.Manifests[k], conf.Storage.GC.GracePeriod)) ==>
 //@             settled(walked, manifests, index.Manifests[k].Digest, mtKind(index.Manifests[k].MediaType))
 //@   loop 2,3,4: invariant [maps]{C05} seen != nil && walked != nil
 //@   loop 2,4: invariant [walked-is-marked]{C05} forall wk: walkKey :: walked[wk] ==> seen[wk.dig]
